@@ -232,8 +232,31 @@ def run(model, col, tier):
         s = unparse(rp[1])
         col.check("newInstruction.SetReference(instruction.Reference)" in s and "isinstance(newInstruction, Instruction)" in s, "R02.3", f"{IR}::BasicBlock.__Replace",
                   "a replacing instruction takes over the reference; a non-instruction replacement (None/constant) removes the slot", None, IR, rp[1])
-    fru = unparse(fr)
-    col.check("instruction.ReplaceUses(ref, new)" in fru and "self.__uses[ref]" in fru, "R02.3", f"{IR}::Function.ReplaceUses", "every recorded user of ref is rewired to the new value", None, IR, fr)
+    # Function.ReplaceUses: for EVERY (ref -> new) pair EVERY recorded user of ref is rewired: the nested iteration reaches the
+    # per-instruction ReplaceUses(ref, new) on all paths of its body (no filter, no early exit)
+    good_fr = False
+    why_fr = "no loop over the replacement map that rewires the users of each reference"
+    for outer in [n for n in ast.walk(fr) if isinstance(n, ast.For)]:
+        if not (isinstance(outer.target, ast.Tuple) and len(outer.target.elts) == 2 and ".items()" in unparse(outer.iter)):
+            continue
+        refn, newn = (unparse(e) for e in outer.target.elts)
+        for inner in [n for n in ast.walk(outer) if isinstance(n, ast.For) and n is not outer]:
+            if f"[{refn}]" not in unparse(inner.iter) or "uses" not in unparse(inner.iter).lower():
+                continue
+            instn = unparse(inner.target)
+            allp = True
+            for evs_, st_ in paths(inner.body, loop_iters=(1,)):
+                if st_ == "raise":
+                    continue
+                cs_ = [c for c in calls_on_path(evs_) if last_attr(c) == "ReplaceUses" and isinstance(c.func, ast.Attribute) and unparse(c.func.value) == instn
+                       and [unparse(a) for a in c.args] == [refn, newn]]
+                if not cs_:
+                    allp = False
+                    why_fr = f"a path through the loop body ({[(' '.join(unparse(e.node).split())[:40], e.val) for e in evs_ if e.kind == 'cond']}) skips `{instn}.ReplaceUses({refn}, {newn})`: " \
+                             "a user with two replaced operands keeps one of them pointing at a removed instruction"
+            # the prefix of the outer body before the inner loop must not skip either
+            good_fr = allp and not any(isinstance(x, (ast.Continue, ast.Break)) for s in outer.body for x in ast.walk(s) if x is not inner and not any(x is y for y in ast.walk(inner)))
+    col.check(good_fr, "R02.3", f"{IR}::Function.ReplaceUses", "every recorded user of every replaced reference is rewired to the new value", why_fr, IR, fr)
     # ---------------- R02.4 ------------------------------------------------------
     flagged = []
     for pname in pipe.ir_passes:
@@ -404,6 +427,34 @@ def run(model, col, tier):
     col.check(bool(guard), "R02.5", f"{OCC}::v_CastInstruction only constants", "only casts of constants are folded", "the fold is not restricted to constant operands", OCC, cv)
     # ---------------- R02.6 ------------------------------------------------------
     check_pool_key(model, col, "R02.6")
+    # ---------------- R02.10 what forwarding relies on: STORE then LOAD yields the stored object itself ------
+    vmm = VMModel(model)
+    for opc_, want_desc in (("STORE", "binds the variable's slot to the stored value itself"), ("LOAD", "binds the result to the variable's current value itself")):
+        arm_ = vmm.arm(opc_)
+        holder_ = ast.Module(body=arm_.body, type_ignores=[])
+        local_vals = {}
+        for n in ast.walk(holder_):
+            if isinstance(n, ast.Assign) and isinstance(n.targets[0], ast.Name):
+                local_vals.setdefault(n.targets[0].id, []).append(n.value)
+        nb = 0
+        for n in ast.walk(holder_):
+            if isinstance(n, ast.Assign) and isinstance(n.targets[0], ast.Subscript):
+                v = n.value
+                if isinstance(v, ast.Name) and len(local_vals.get(v.id, [])) == 1:
+                    v = local_vals[v.id][0]
+                keytxt = unparse(n.targets[0].slice)
+                if opc_ == "STORE" and "Variable" in keytxt:
+                    nb += 1
+                    okv = isinstance(v, ast.Subscript) and "Store.Reference" in unparse(v.slice)
+                elif opc_ == "LOAD" and ("Reference" in keytxt or keytxt == "ref"):
+                    nb += 1
+                    okv = isinstance(v, ast.Subscript) and "Variable" in unparse(v.slice)
+                else:
+                    continue
+                col.check(okv, "R02.10", f"{VM}::__Execute {opc_} arm `{unparse(n.targets[0])[:40]}`", want_desc,
+                          f"`{' '.join(unparse(n).split())[:70]}` (value `{' '.join(unparse(v).split())[:50]}`) transforms or copies the value: load-after-store forwarding replaces the reloaded value by the "
+                          "stored one, so optimised and unoptimised programs then work on different objects (a write through the copy is lost or gained)", VM, n)
+        col.floor("R02.10", f"slot bindings in the {opc_} arm", nb, 3)
     # ---------------- R02.7 ------------------------------------------------------
     ld = h.args.args[1].arg  # the load being visited
     pv = None  # the name holding the previous instruction
@@ -411,7 +462,17 @@ def run(model, col, tier):
         if isinstance(n, ast.Assign) and isinstance(n.targets[0], ast.Name) and isinstance(n.value, ast.Call) and last_attr(n.value) == "GetPreviousInstruction":
             pv = n.targets[0].id
     if pv is None:
-        raise AnchorMissing(f"{LAS}::v_VariableAccessInstruction: no local holds GetPreviousInstruction(...)")
+        inline = [c for c in ast.walk(h) if isinstance(c, ast.Call) and last_attr(c) == "GetPreviousInstruction"]
+        if inline:
+            pv = " ".join(unparse(inline[0]).split())
+        else:
+            col.bad("R02.7", f"{LAS}::previous instruction source",
+                    "the handler never asks the load's block for the instruction directly before the load (GetPreviousInstruction): whatever it forwards from is not known to be "
+                    "the store immediately preceding the load in the same block (a store from another block or an earlier function can be forwarded)", LAS, h)
+            gp = bb.own_method("GetPreviousInstruction")
+            col.check(_previous_ok(bb, gp), "R02.7", f"{IR}::BasicBlock.GetPreviousInstruction",
+                      "the directly preceding instruction of the same block (index - 1), None for the first", "GetPreviousInstruction does not return the directly preceding instruction of the same block", IR, gp)
+            return
     h_env = {k: v for k, v in local_env(h).items() if k != pv}
     need = {
         f"{ld}.Store is None": True,
